@@ -5,7 +5,7 @@ more verification conditions discharged by z3 (unsat of pc & not clause).
 Execution is path-based with a decision oracle (re-execution on backtracking);
 loops are cut by sidecar invariants, calls by callee contracts.
 """
-import ast, time, itertools, re
+import ast, time, itertools, re, os
 import z3
 from . import repo
 from .vtypes import *
@@ -43,6 +43,9 @@ class BoundBuiltin(PyObj):
 class IterV(PyObj):
     """virtual finite sequence: length term + element getter (python closure i_term -> V)"""
     def __init__(self, ln, get, ety=None): self.ln, self.get, self.ety = ln, get, ety
+class MapIterV(PyObj):
+    """iteration over an (unordered) map: keys / values / items, in arbitrary order"""
+    def __init__(self, m, kind): self.m, self.kind = m, kind
 class ExcClass(PyObj):
     def __init__(self, name): self.name = name
 class LambdaV(PyObj):
@@ -72,6 +75,7 @@ BUILTIN_EXC = {
 class Contract:
     def __init__(self, rel, qual, **kw):
         self.rel, self.qual = rel, qual
+        self.view = kw.pop('view', None)          # several contracts ("views") may be verified for one function; calls resolve within the same view first
         self.params = kw.pop('params', {})        # name -> type string (in signature order is taken from the real def)
         self.ghost = kw.pop('ghost', {})          # ghost params name -> type
         self.state = kw.pop('state', {})          # closed-over / global state name -> type
@@ -90,10 +94,13 @@ class Contract:
         self.self_type = kw.pop('self_type', None)
         self.unroll = kw.pop('unroll', 0)
         self.faults = kw.pop('faults', [])
+        self.ghost_after = kw.pop('ghost_after', {})   # unparse(statement) -> [(ghost var, spec expr)] executed right after it
         self.hints = kw.pop('hints', {})          # where -> [spec exprs to instantiate (assume-after-prove)]
         assert not kw, 'unknown contract keys %r' % list(kw)
     @property
-    def key(self): return '%s:%s' % (self.rel, self.qual)
+    def key(self): return '%s:%s' % (self.rel, self.qual) + ('#' + self.view if self.view else '')
+    @property
+    def oname(self): return self.qual + ('#' + self.view if self.view else '')
 
 class World:
     """all sidecar declarations of one property: types, classes, contracts, spec defs"""
@@ -110,6 +117,7 @@ class World:
         self.class_src = {}    # ref class name -> (rel, classname)
         self.trusted = []      # free-text trusted-base entries
         self.ufunc_facts = {}
+        self.builtin_alias = {}     # name in repo code -> builtin model it behaves like (e.g. OrderedSet -> set), listed as assumption
         self.hierarchies = {}       # ref class name -> rel of the module whose class hierarchy decides isinstance on it
         self.callable_recs = {}     # record type name -> python function(ex, recv, args, kwargs, node) modelling __call__
         self.ext_funcs = {}         # source text of a callee expression -> assumed contract dict (code outside reach)
@@ -171,6 +179,7 @@ class World:
         if head == 'Set': return TSet(self.ty(inner[0]))
         if head == 'Map': return TMap(self.ty(inner[0]), self.ty(inner[1]))
         if head == 'OMap': return TOMap(self.ty(inner[0]), self.ty(inner[1]))
+        if head == 'Fun': return TFun(self.ty(inner[0]), self.ty(inner[1]))
         if head == 'Tuple': return TTuple([self.ty(x) for x in inner])
         raise KeyError('unknown type %r' % s)
 
@@ -243,10 +252,10 @@ class Exec:
     def __init__(self, world, verifier, chooser, timeout_ms):
         self.w = world; self.vf = verifier; self.ch = chooser
         self.solver = z3.Solver(); self.solver.set('timeout', timeout_ms)
-        self.ground = z3.Solver(); self.ground.set('timeout', 2000)     # quantifier-free facts only: fast branch pruning
+        self.ground = z3.Solver(); self.ground.set('timeout', int(os.environ.get('PYVC_GROUND_MS', 300)))     # quantifier-free facts only: fast branch pruning
         self.timeout_ms = timeout_ms
         self.st = State(); self.old = None
-        self.spec = 0; self.nofork = 0
+        self.spec = 0; self.nofork = 0; self.bseq = 0
         self.facts_log = None       # when not None: list collecting assumed facts (for generalisation)
         self.binders = []           # bound variables in scope (comprehension elements)
         self.exc_stack = []
@@ -268,9 +277,11 @@ class Exec:
     def feasible(self, f=None, full=False):
         if f is not None and has_quant(f): full = True
         if full:
-            self.solver.set('timeout', 1500)
-            r = self.solver.check(f) if f is not None else self.solver.check()
-            self.solver.set('timeout', self.timeout_ms)
+            # fresh solver: z3's incremental mode is much weaker with quantified facts
+            fs = z3.Solver(); fs.set('timeout', 4000)
+            fs.add(self.solver.assertions())
+            if f is not None: fs.add(f)
+            r = fs.check(); self.vf.full_checks += 1
         else:
             r = self.ground.check(f) if f is not None else self.ground.check()
         return r != z3.unsat
@@ -278,11 +289,20 @@ class Exec:
         c = z3.simplify(cond)
         if z3.is_true(c): return True
         if z3.is_false(c): return False
-        ft = self.feasible(c); ff = self.feasible(z3.Not(c))
-        if ft and ff and (exceptional or self.nofork or self.spec) and self.has_quant_facts():
-            # the quantified facts (preconditions, invariants) may rule a side out
-            if exceptional: ft = self.feasible(c, full=True)
-            else: ft = self.feasible(c, full=True); ff = self.feasible(z3.Not(c), full=True)
+        # paths are re-executed from the start for every decision prefix: the same feasibility questions recur.
+        # They are memoised by (decisions taken so far, ordinal of this branch point, nofork/spec context).
+        self.bseq += 1
+        key = (tuple(x[0] for x in self.ch.trace), self.bseq, bool(self.nofork or self.spec), bool(exceptional))
+        cache = self.vf.feas_cache
+        if key in cache:
+            ft, ff = cache[key]
+        else:
+            ft = self.feasible(c); ff = self.feasible(z3.Not(c))
+            if ft and ff and (exceptional or self.nofork or self.spec) and self.has_quant_facts():
+                # the quantified facts (preconditions, invariants) may rule a side out
+                if exceptional: ft = self.feasible(c, full=True)
+                else: ft = self.feasible(c, full=True); ff = self.feasible(z3.Not(c), full=True)
+            cache[key] = (ft, ff)
         if ft and not ff: return True
         if ff and not ft: return False
         if not ft and not ff: raise Infeasible()
@@ -316,9 +336,13 @@ class Exec:
             if name in self.w.types and name not in BUILTINS: return TypeObj(self.w.types[name])
         # enclosing function closures (state vars live in env already)
         if name in fr.get('local_funcs', {}): return fr['local_funcs'][name]
+        fn = fr.get('func')
+        if fn is not None and fn.name == name and fr.get('contract') is not None and '<locals>' in fr['contract'].qual:
+            return FuncRef(fr['rel'], fr['contract'].qual, fn)      # a nested function calling itself
         return self.lookup_module(fr['rel'], name)
 
     def lookup_module(self, rel, name):
+        if name in self.w.builtin_alias: return BuiltinRef(self.w.builtin_alias[name])
         m = repo.module(rel)
         if name in m.funcs: return FuncRef(rel, name, m.funcs[name])
         if name in m.classes: return self.class_obj(rel, name)
@@ -341,7 +365,7 @@ class Exec:
             info = repo.module_by_dotted(base)
             if info is not None:
                 return self.lookup_module(info.relpath, nm)
-            return ModuleRef(base + '.' + nm, None)
+            return BuiltinRef(base + '.' + nm)       # a name imported from outside the repository
         if name in BUILTIN_EXC: return ExcClass(name)
         if name in BUILTINS: return BuiltinRef(name)
         if name in self.w.defs or name in self.w.ufuncs or name in SPEC_BUILTINS: return SpecFn(name)
@@ -477,7 +501,7 @@ class Exec:
         ety = T._join_all([v.ty for v in vals])
         mem = empty_set_term(ety)
         for v in vals: mem = z3.Store(mem, pack(coerce(v, ety)), True)
-        card = fresh('card', z3.IntSort())
+        card = T.card_fn(mem)
         for f in set_facts(mem, card, TSet(ety)): self.assume(f)
         self.assume(card <= len(vals))
         if len(vals) == 1: self.assume(card == 1)
@@ -491,7 +515,7 @@ class Exec:
         dom = empty_set_term(kty); val = z3.K(sort_of(kty), pack(default_value(vty)))
         for k, v in zip(ks, vs):
             kt = pack(coerce(k, kty)); dom = z3.Store(dom, kt, True); val = z3.Store(val, kt, pack(coerce(v, vty)))
-        card = fresh('card', z3.IntSort())
+        card = T.card_fn(dom)
         for f in set_facts(dom, card, TSet(kty)): self.assume(f)
         return V(TMap(kty, vty), (dom, val, card))
 
@@ -803,7 +827,7 @@ class Exec:
         elif opname == 'BitAnd': mem = z3.SetIntersect(a.t[0], b.t[0])
         elif opname == 'Sub': mem = z3.SetDifference(a.t[0], b.t[0])
         else: raise Unsupported('set op %s' % opname)
-        card = fresh('card', z3.IntSort())
+        card = T.card_fn(mem)
         for f in set_facts(mem, card, TSet(ety)): self.assume(f)
         if opname == 'BitOr': self.assume(z3.And(card >= a.t[1], card >= b.t[1], card <= a.t[1] + b.t[1]))
         elif opname == 'Sub': self.assume(z3.And(card <= a.t[1], card >= a.t[1] - b.t[1]))
@@ -974,6 +998,10 @@ class Exec:
             k = pack(self.co(idx, ty.k))
             if not self.spec and self.branch(z3.Not(T.omap_member(obj, k)), exceptional=True): self.raise_exc('KeyError')
             return unpack(z3.Select(obj.t[3], k), ty.v)
+        if isinstance(ty, TFun):
+            v = unpack(z3.Select(obj.t, pack(self.co(idx, ty.k))), ty.v)
+            for fct in T.type_facts(v): self.assume(fct)
+            return v
         if isinstance(ty, TRef) and ty.universal:
             self.vf.note_assumption('an opaque object used as a sequence: its items/length are uninterpreted (TypeError/IndexError not modelled)')
             return V(ty, z3.Function('obj_item', sort_of(ty), z3.IntSort(), sort_of(ty))(obj.t, coerce(idx, TInt).t))
@@ -1121,6 +1149,8 @@ class Exec:
             f = f.t[1]
         if isinstance(f, V) and isinstance(f.ty, TRec) and f.ty.name in self.w.callable_recs:
             return self.w.callable_recs[f.ty.name](self, f, args, kwargs, node)
+        if isinstance(f, V) and isinstance(f.ty, TRef) and (f.ty.cls + '.__call__') in self.w.ext_methods:
+            return self.ext_call(ExtMethod(f, f.ty.cls + '.__call__'), args, kwargs, node)
         raise Unsupported('call of %s' % (f.ty if isinstance(f, V) else type(f).__name__))
 
     def call_lambda(self, f, args):
@@ -1229,12 +1259,17 @@ class Exec:
         return bound, names
 
     def call_func(self, fr, args, kwargs, node, recv_node=None):
-        c = self.w.contracts.get(fr.key)
+        me = None
+        for f_ in reversed(self.frames):
+            if f_.get('contract') is not None: me = f_['contract']; break
+        view = me.view if me is not None else None
+        c = (self.w.contracts.get(fr.key + '#' + view) if view else None) or self.w.contracts.get(fr.key)
         if c is None:
             # methods are keyed by Class.method; nested functions by outer.<locals>.inner
-            for k, cc in self.w.contracts.items():
-                if cc.rel == fr.rel and cc.qual.split('.')[-1] == fr.node.name and repo.find_def(cc.rel, cc.qual)[0] is fr.node:
-                    c = cc; break
+            cands = [cc for cc in self.w.contracts.values()
+                     if cc.rel == fr.rel and cc.qual.split('.')[-1] == fr.node.name and repo.find_def(cc.rel, cc.qual)[0] is fr.node]
+            same = [cc for cc in cands if cc.view == view]; dflt = [cc for cc in cands if cc.view is None]
+            c = (same or dflt or cands or [None])[0]
         if c is None or c.inline or self.spec:
             if c is None and not self.spec and not self.vf.auto_inline(fr):
                 raise Unsupported('call to %s without a contract' % fr.key)
@@ -1324,7 +1359,7 @@ class Exec:
         # requires
         for i, r in enumerate(c.requires):
             f = self.eval_spec(r, env=env, rel=fr.rel)
-            self.prove(f, '%s/pre@%s#%d' % (self.vf.cur.qual, site, i), 'pre@callsite', r, 'auxiliary')
+            self.prove(f, '%s/pre@%s#%d' % (self.vf.cur.oname, site, i), 'pre@callsite', r, 'auxiliary')
         pre = self.st.copy(); pre.env = dict(env)
         # havoc modifies
         facts = []
@@ -1342,6 +1377,9 @@ class Exec:
                 nv = havoc(self.val(vals[mname]).ty, mname, facts); env[mname] = nv
                 self.write_back(fr, mname, names, node, recv_node, nv)
             else: raise Unsupported('modifies entry %s' % mname)
+        for g in c.hints.get('ghost_out', ()):
+            # an existential witness produced by the callee: unknown to the caller, (re)bound in its ghost variable of the same name
+            nv = havoc(w.ty(c.ghost[g]), g, facts); env[g] = nv; self.st.env[g] = nv
         for f in facts: self.assume(f)
         # outcome
         outcomes = ['normal'] + list(c.raises.keys())
@@ -1403,7 +1441,7 @@ class Exec:
             if s_ in self.st.env: env[s_] = self.st.env[s_]
         for i, r in enumerate(c.get('requires', [])):
             fml = self.eval_spec(r, env=env)
-            self.prove(fml, '%s/pre@%s#%d' % (self.vf.cur.qual, site, i), 'pre@callsite', r, c.get('tag', 'property'))
+            self.prove(fml, '%s/pre@%s#%d' % (self.vf.cur.oname, site, i), 'pre@callsite', r, c.get('tag', 'property'))
         outcomes = ['normal'] + list(c.get('raises', {}))
         k = self.choose(len(outcomes)) if len(outcomes) > 1 else 0
         pre = self.st.copy(); pre.env = dict(env)
@@ -1485,6 +1523,14 @@ class Exec:
         meth = getattr(self, 's_' + type(st).__name__, None)
         if meth is None: raise Unsupported('statement %s' % type(st).__name__)
         meth(st)
+        c = self.frame.get('contract')
+        if c is not None and c.ghost_after and isinstance(st, (ast.Expr, ast.Assign, ast.AugAssign)):
+            # ghost updates attached (in the sidecar) to a statement, identified by its normalised source text
+            upd = c.ghost_after.get(ast.unparse(st))
+            if upd:
+                self.vf.note_ghost(c, ast.unparse(st))
+                for name, expr in upd:
+                    self.st.env[name] = coerce(self.val(self.eval_spec_val(expr)), self.val(self.st.env[name]).ty)
 
     def s_Pass(self, st): pass
     def s_Expr(self, st):
@@ -1652,22 +1698,36 @@ class Exec:
     def loop(self, st, kind):
         lc, ordn = self.loop_contract(st)
         if lc is None: return self.loop_unrolled(st, kind)
-        vf = self.vf; base = '%s/loop%d' % (vf.cur.qual if not self.frame.get('inlined') else self.frame['contract'].qual, ordn)
+        vf = self.vf; base = '%s/loop%d' % (vf.cur.oname if not self.frame.get('inlined') else self.frame['contract'].oname, ordn)
         idxname = lc.get('index', 'i')
         it = None; setiter = None
         if kind == 'for':
             itv = self.eval(st.iter)
+            if isinstance(itv, V) and isinstance(itv.ty, TOpt):
+                if self.branch(itv.t[0], exceptional=True): self.raise_exc('TypeError')
+                itv = itv.t[1]
+            bind = lambda x: x
+            if isinstance(itv, V) and isinstance(itv.ty, TMap): itv = MapIterV(itv, 'keys')
             if isinstance(itv, V) and isinstance(itv.ty, TSet):
                 setiter = itv
+            elif isinstance(itv, MapIterV):
+                mp = itv.m; setiter = V(TSet(mp.ty.k), (mp.t[0], mp.t[2]))
+                mval = lambda k: unpack(z3.Select(mp.t[1], pack(k)), mp.ty.v)
+                if itv.kind == 'values': bind = mval
+                elif itv.kind == 'items': bind = lambda k: V(TTuple([mp.ty.k, mp.ty.v]), [k, mval(k)])
             else:
                 it = self.iter_of(itv)
+                if lc.get('seq'):      # ghost name for the (unnamed) sequence being iterated
+                    sv = self.materialize(it); self.st.env[lc['seq']] = sv
+                    it = IterV(sv.t[0], lambda i_, sv=sv: seq_get(sv, i_), sv.ty.elem)
         old_fn = self.old
         def spec_env():
             e = dict(self.st.env); return e
         # 1. invariant on entry
         if kind == 'for':
             if setiter is not None:
-                done0 = V(setiter.ty, (empty_set_term(setiter.ty.elem), z3.IntVal(0)))
+                done0 = coerce(V(TTuple([]), []), setiter.ty)
+                for fct in T.type_facts(done0): self.assume(fct)
                 self.st.env[lc.get('done', 'done')] = done0
             else: self.st.env[idxname] = vint(0)
         for h in lc.get('lemmas', []): self.assume_lemma(h)
@@ -1725,8 +1785,10 @@ class Exec:
                     for f in facts: self.assume(f)
                     xt = pack(x)
                     self.assume(z3.Select(setiter.t[0], xt)); self.assume(z3.Not(z3.Select(done.t[0], xt)))
-                    self.assign(st.target, x)
-                    self._pending_done = (lc.get('done', 'done'), V(setiter.ty, (z3.Store(done.t[0], xt, True), done.t[1] + 1)))
+                    self.st.env[lc.get('cur', 'cur_elem')] = x
+                    self.assign(st.target, bind(x))
+                    m2, c2, fct = T.set_update(done.t[0], done.t[1], xt, True); self.assume(fct)
+                    pending_done = (lc.get('done', 'done'), V(setiter.ty, (m2, c2)))
                 else:
                     self.assign(st.target, it.get(i))
             try:
@@ -1739,7 +1801,7 @@ class Exec:
             # step: re-establish invariant
             if kind == 'for':
                 if setiter is not None:
-                    nm, nv = self._pending_done; self.st.env[nm] = nv
+                    nm, nv = pending_done; self.st.env[nm] = nv
                 else: self.st.env[idxname] = vint(i + 1)
             for k, inv in enumerate(lc.get('invariant', [])):
                 self.prove(self.eval_spec(inv), '%s/inv-step#%d' % (base, k), 'inv-step', inv)
